@@ -7,11 +7,14 @@ functions with independent references written in this file:
   (property C14, functions of src/pharmpy/modeling/data.py); every derivation is also held to
   the frame "the input model's dataset is not modified" (property C06), on datasets with
   numeric TIME as well as with NM-TRAN clock TIME and DATE columns, with EVID and MDV columns
-  that disagree on some records, and with covariates that are missing on some records
+  that disagree on some records, and with covariates that are missing on some records; the
+  expansion of additional doses also with several additional doses per record and dosing
+  intervals that span later records, on ordinary doses and on EVID=4 reset-and-dose records
 * bounded_dataset_reading: a reference NM-TRAN reader written from docs/NONMEM.rst
   (property C13, src/pharmpy/model/external/nonmem/dataset.py, modeling/write_csv.py) and the
   write/read cycles of datasets through generated model code (also for a model with its own
-  missing data token), IGNORE/ACCEPT filters on columns that have a synonym in $INPUT
+  missing data token, and for data / model files whose names contain characters or keywords with
+  a meaning in $DATA), IGNORE/ACCEPT filters on columns that have a synonym in $INPUT
 
 Every entry of 'fails' carries 'also': all failing cases of its (fid, clause) key in
 enumeration order (capped), see tools/BOUNDED_GUIDE.md.
@@ -128,10 +131,11 @@ SCHEMAS = {
     # other records (ADDL=1, II=2), on ordinary doses and on EVID=4 reset-and-dose records: the
     # additional doses interleave with the records that follow their dose record.  Only the
     # expansion of the additional doses is evaluated on these datasets: see ONLY_FUNCS.
+    # (same number of records in both tiers: fixed=True)
     'addl_multi': dict(model='iv', id='ID', cols=['ADDL', 'II'], kinds=['o', 'da2', 'dai2'],
-                       only='expand'),
+                       only='expand', fixed=True),
     'evid_addl_multi': dict(model='iv', id='ID', cols=['EVID', 'ADDL', 'II'],
-                            kinds=['o', 'da2', 'dai2', 'Ra2', 'Rai2'], only='expand'),
+                            kinds=['o', 'da2', 'dai2', 'Ra2', 'Rai2'], only='expand', fixed=True),
 }
 
 # the derivations evaluated on the schemas with only='obs'
@@ -1334,12 +1338,12 @@ def _enumerate_cases(tier):
 
 
 def _enumerate_shapes(tier):
-    extra = 1 if tier == 'thorough' else 0
     t1 = (0, 1, 2)
     t2 = (0, 1)
     for name, sch in SCHEMAS.items():
         if sch.get('thorough') and tier != 'thorough':
             continue
+        extra = 1 if tier == 'thorough' and not sch.get('fixed') else 0
         kinds = sch['kinds']
         small = 1 if sch.get('small') else 0
         nmax = 3 - small + extra
@@ -1468,7 +1472,8 @@ def bounded_dataset_derivations(tier='quick'):
         'get_mdv, get_evid, get_observations, the observation counts, get_doses, get_baselines '
         'and list_time_varying_covariates are evaluated; %d of the schemas (ADDL/II without and '
         'with an EVID column) have doses with ADDL=2 II=1 and with ADDL=1 II=2, on ordinary doses '
-        'and on EVID 4 records: on these only expand_additional_doses is evaluated'
+        'and (with the EVID column) on EVID 4 records: on these only expand_additional_doses is '
+        'evaluated, on datasets of <=3 records in both tiers'
         % (nsch, ' (DATE, DAT1, DAT2, DAT3)' if extra else '', 3 + extra, 2 + extra, nsmall,
            2 + extra, 3 + extra,
            'datasets with <=3 records also with 0.5 / 0.25 only and with 100 / 50 only' if extra else
